@@ -40,6 +40,8 @@ func main() {
 		runCluster(os.Args[2:])
 	case "churn":
 		runChurn(os.Args[2:])
+	case "snaprace":
+		runSnaprace(os.Args[2:])
 	case "readyloop":
 		runReadyloop(os.Args[2:])
 	case "tornsave":
